@@ -142,10 +142,10 @@ pub fn leaves() -> Vec<(String, T)> {
         p("Local", T::Local(i));
     }
     for path in ["MTX0", "\\_SB_.MTX1", "_SB_.PCI0.MTX2"] {
-        for lvl in [0u8, 1, 15] {
+        for lvl in 0..=15u8 {
             p("Mutex", T::Mutex(path.to_string(), lvl));
         }
-        for to in [0u16, 1, 0x1234, 0xffff] {
+        for to in [0u16, 1, 0x1234, 0xffff, 0x00ff, 0xff00].into_iter().chain((0..16).map(|b| 1u16 << b)) {
             p("Acquire", T::Acquire(path.to_string(), to));
         }
         p("Release", T::Release(path.to_string()));
